@@ -70,6 +70,10 @@ class PumlParser(DiagramParser):
             content = puml_file.read().strip()
 
         relevant_content = self._remove_content_outside_start_and_end_tags(content)
+        # blanks in front of and behind a line are not part of the line
+        relevant_content = "\n".join(
+            line.strip() for line in relevant_content.splitlines()
+        )
 
         modules = self._retrieve_modules_declared_outside_dependencies(relevant_content)
         dependencies = self._retrieve_dependencies_and_inline_modules(relevant_content)
